@@ -401,7 +401,7 @@ dataset — whereas the specified join returns three datapoints with unique iden
 theorem full3_impl_counter :
     ¬ (implFull3 ["Id_1"] wx wy wz).WF ∧ (implFull3 ["Id_1"] wx wy wz).keys = [[.int 1], [.int 3], [.int 3], [.int 4]] ∧
     (joinFold .full none wx [wy, wz]).map (fun r => (decide r.WF, r.rows.map (fun w => (w.get "Id_1", w.get "Me_3", w.get "Me_5")))) =
-      .ok (true, [(.int 1, .str "x", .null), (.int 3, .str "y", .int 5), (.int 4, .null, .int 6)]) := by
+      .ok (true, [(.int 3, .str "y", .int 5), (.int 1, .str "x", .null), (.int 4, .null, .int 6)]) := by
   decide +kernel
 
 /-! ## non-vacuity: the Reference-Manual data (RM006–RM009), abridged -/
